@@ -44,6 +44,9 @@ pub trait DynModel {
     /// runs the rule functions of one iteration, one rule group at a time, and returns what each
     /// pushed into the delta vectors: (rule group, delta field, rows)
     fn priv_run_rules(&mut self) -> Vec<(String, String, Vec<Tuple>)>;
+    /// theories with a model declaration: eqlog_runtime::morphism_toposort on the model's current
+    /// six dom / cod / object tables, as (morph, dom, cod) triples; None for other theories
+    fn priv_toposort(&self) -> Option<Result<Vec<(u32, u32, u32)>, ()>>;
 }
 
 pub struct Entry {
